@@ -80,3 +80,9 @@ package keeper
 // (at a call site inside the body the header's rangeindex is still the previous index)
 //@   before[C18.eig.asis] AddEpochInfo requires arg_epochInfo == genState.Epochs[rangeindex + 1]
 //@   step[C18.eig.asis] defined(res_AddEpochInfo_0)
+
+// C18: the exported document is every stored epoch record.
+//@ func (Keeper).ExportGenesis
+//@   flag noframe
+//@   flag pure=AllEpochInfos
+//@   ensures[C18.exg.all] defined(res_AllEpochInfos_0) && r0.Epochs == res_AllEpochInfos_0
